@@ -116,14 +116,16 @@ def run_layer(case, ctx, g):
         (ref * wgt).sum().backward()
         ctx.count('grad_checks')
         rtol = 1e-6 if dt == torch.float64 else 2e-3
+        # absolute floor: a reference gradient that cancels to exactly zero still leaves roundoff of the size of the terms that cancelled
+        floor = 1e3 * dn.ueps(dt) * dn.fro(wgt) * max(srep, 1e-30) / max(min(dn.fro(c.detach()) for c in cores), 1e-30)
         for k, c in enumerate(cores):
-            _gcmp(ctx, 'grad/core', what + ' core %d' % k, c.grad, leaf[k].grad, rtol)
-        _gcmp(ctx, 'grad/bias', what + ' bias', layer.bias.grad, bleaf.grad, rtol)
+            _gcmp(ctx, 'grad/core', what + ' core %d' % k, c.grad, leaf[k].grad, rtol, floor)
+        _gcmp(ctx, 'grad/bias', what + ' bias', layer.bias.grad, bleaf.grad, rtol, 1e3 * dn.ueps(dt) * dn.fro(wgt))
     if dn.fro(ref.detach()) > 0:
         ctx.nontrivial((tuple(sin), tuple(sout), tuple(rank), tuple(batch), case['dtype'], case['init'], case['intvals']))
 
 
-def _gcmp(ctx, key, what, got, ref, rtol):
+def _gcmp(ctx, key, what, got, ref, rtol, floor=0.0):
     if got is None:
         ctx.viol(key + '/clause=grad-is-None', what)
         return
@@ -133,5 +135,5 @@ def _gcmp(ctx, key, what, got, ref, rtol):
     err = dn.fro(got.to(torch.float64) - ref)
     scale = max(dn.fro(ref), 1e-30)
     ctx.metric('grad_rel_err', err / scale)
-    if err > rtol * scale + 1e-12:
+    if err > rtol * scale + 1e-12 + floor:
         ctx.viol(key + '/clause=grad-value', '%s: ||g-gref||=%.3e, ||gref||=%.3e' % (what, err, scale))
